@@ -307,3 +307,80 @@ func (g *vEventGate) Append(e *Event) {
 	g.events = append(g.events, *e)
 }
 func (g *vEventGate) Write(b []byte) { <-g.gate }
+
+//verif:witness H_C10_sinks end
+//verif:bound C10 all real sinks: sync logger -> console / file / rolling-file appender and the rolling-file logger (file-system model, concrete clock), all three hooks set, two events: each hook runs exactly once per event with the caller's context (nothing else in the pipeline consults the hooks)
+//verif:engine-only H_C10_sinks
+func H_C10_sinks() {
+	vOpt("loop", 400)
+	var nTime, nStr, nFields, badCtx int
+	hookTime := time.Unix(1700000000, 0)
+	TimeNow = func(ctx context.Context) time.Time {
+		nTime++
+		if ctx != vCtx {
+			badCtx++
+		}
+		return hookTime
+	}
+	StringFromContext = func(ctx context.Context) string {
+		nStr++
+		if ctx != vCtx {
+			badCtx++
+		}
+		return "cs"
+	}
+	FieldsFromContext = func(ctx context.Context) []Field {
+		nFields++
+		if ctx != vCtx {
+			badCtx++
+		}
+		return []Field{Int("c", 1)}
+	}
+	defer func() { TimeNow, StringFromContext, FieldsFromContext = nil, nil, nil }()
+	root := vFSRoot()
+	defer vFSCleanup()
+	dir := root + "/logs"
+	vFSMkdir(dir)
+	saved := Stdout
+	defer func() { Stdout = saved }()
+	Stdout = &vSink{}
+	lay := &TextLayout{BaseLayout{FileLineLength: 48}}
+	all := LevelRange{MinLevel: NoneLevel, MaxLevel: MaxLevel}
+	tag := &Tag{tag: "_t_x"}
+	var stop func()
+	kind := vChoose("sink", 4)
+	if kind == 3 {
+		rl := &RollingFileLogger{LoggerBase: LoggerBase{Name: "r", Level: all}, FileDir: dir, FileName: "r", Rotation: TimeRotation{Interval: time.Second}, MaxAge: 168, BufferSize: 100}
+		if err := rl.Start(); err != nil {
+			panic(err)
+		}
+		tag.logger, stop = rl, rl.Stop
+	} else {
+		var app Appender
+		switch kind {
+		case 0:
+			app = &ConsoleAppender{Layout: lay}
+		case 1:
+			app = &FileAppender{Layout: lay, FileDir: dir, FileName: "f.log"}
+		default:
+			app = &RollingFileAppender{Layout: lay, FileDir: dir, FileName: "r", Rotation: TimeRotation{Interval: time.Second}, MaxAge: 168}
+		}
+		if err := app.Start(); err != nil {
+			panic(err)
+		}
+		logger := &SyncLogger{LoggerBase: LoggerBase{Name: "s", Level: all}}
+		logger.AppenderRefs.AppenderRefs = []*AppenderRef{{Appender: app, Level: all}}
+		tag.logger, stop = logger, app.Stop
+	}
+	base := nTime // a sink may not consult the hooks at start-up either
+	vAssert(base == 0 && nStr == 0 && nFields == 0, "no-hook-invoked-without-an-event")
+	for i := 1; i <= 2; i++ {
+		Info(vCtx, tag, Msg("m"))
+		vAssert(nTime == i, "time-hook-exactly-once-per-event")
+		vAssert(nStr == i && nFields == i, "context-hooks-exactly-once-per-event")
+		vClockAdvance(2) // the next event falls into the next rotation interval
+	}
+	stop()
+	vAssert(badCtx == 0, "hooks-get-the-callers-context")
+	vReach("end")
+}
